@@ -29,7 +29,7 @@ ASSUMPTIONS = [
     'leaf-valued trees without empty branches',
 ]
 BOUNDS = {'quick': {'depth': 3, 'path_len': 3},
-          'thorough': {'depth': 3, 'path_len': 4}}
+          'thorough': {'depth': 3, 'path_len': 5}}
 KEYS = ('a', 'b')
 
 
